@@ -75,6 +75,13 @@ fn main() {
         let sp = IndexerSpace { fmts: fmts.clone(), max_records: 2, quick, combos };
         ctx.harness(Config::new("rt_indexer_le2", 0), |ch| roundtrip::body_indexer(ch, &sp));
         if !quick {
+            // <= 3 records: scaled-down alphabets, the quick tier's four formats
+            let fmts = vec![
+                Fmt::Bai,
+                Fmt::Tabix,
+                Fmt::Csi { ms: 14, d: 5, header: false },
+                Fmt::Csi { ms: 3, d: 2, header: true },
+            ];
             let sp3 = IndexerSpace { fmts, max_records: 3, quick: true, combos: roundtrip::combos_covering() };
             ctx.harness(Config::new("rt_indexer_le3_reduced", 0), |ch| roundtrip::body_indexer(ch, &sp3));
         }
